@@ -186,7 +186,9 @@ mutual
         if prec == 0 && tok.typ == .tTernIf then parseTernary fuel n
         else do backup; pure n
       else
-        let rhs ← parseExpr fuel (q + 1)
+        -- `?:` shares the lowest level with the ternary and associates to the right: its right operand is
+        -- `parseExpr(0)` (then `continue`); every other operator takes `parseExpr(q + 1)`
+        let rhs ← parseExpr fuel (if tok.typ == .tElvis then 0 else q + 1)
         match binOpOf tok.typ with
         | some op => exprLoop fuel prec (Expr.bin op tok.pos n rhs)
         | none => fail PErr.panic      -- panic("unimplemented")
